@@ -638,6 +638,24 @@ def build_C17(ctx, tier, rnd):
             seq += ['u%d' % (1 + j % 3), 'R', 's', 'fail' if j % 2 == 0 else 'R']
         hs.append(('c17many%d' % n, [al.init] + al.seq(seq + ['R', 'upnone', 'q', 'upnone'])))
         hs.append(('c17manyb%d' % n, [al.init] + al.seq(seq + ['uperr', 'u2', 'R', 's', 'ok', 'R', 's', 'ok'])))
+    # two failures queued by a fallback chain (2 fails, falls back to 1, 1 fails) with restarts, then every kind of update
+    for f2 in (['fail'], ['R']):
+        for f1 in (['fail'], ['R']):
+            for mid in ([], ['R'], ['q', 'R', 'q']):
+                for fl in ('upnone', 'uperr', 'u3', 'udl3', 'rb5'):
+                    seq = ['u1', 's', 'ok', 'u2', 'R', 's'] + f2 + mid + ['s'] + f1 + ['R'] + [fl, 'q', 'upnone']
+                    hs.append(('c17chain%d' % len(hs), [al.init] + al.seq(seq)))
+    # queues of 0..6 stored events (as an older run of the same release left them), then an update: at most
+    # three are sent, oldest first, before the check, and the queue is empty afterwards
+    tag = '%s.%s' % (hx(APP), hx(REL1))
+    pool = ['F.2.%s.e' % tag, 'F.1.%s.i' % tag, 'F.3.%s.e' % tag, 'F.5.%s.i' % tag, 'F.7.%s.e' % tag, 'F.9.%s.i' % tag, 'S.4.%s.n' % tag]
+    for n in range(0, 7):
+        for rot in range(3 if tier == 'quick' else 7):
+            evs = [pool[(rot + j) % len(pool)] for j in range(n)]
+            q = 'op dmg sjq %s %s' % (hx(REL1), ','.join(evs) or '-')
+            for fl in ('upnone', 'uperr', 'u2'):
+                hs.append(('c17q%d' % len(hs), [al.init] + al.seq(['u1', 's', 'ok']) + [q] + al.seq(['q', 'R', 'q', fl, 'q', 'upnone'])))
+                hs.append(('c17q%d' % len(hs), [al.init, q] + al.seq(['s', 'fail', fl, 'q'])))
     return hs
 
 
@@ -747,19 +765,43 @@ def run_C16(pid, tier, seed, model_ok=True):
         small = len(base) <= 300000 and len(new) <= 300000
         lines = ['blob base %s' % base.hex(), 'blob new %s' % (new.hex() or 'e'), 'blob raw %s' % raw.hex(), 'blob dl %s' % dl.hex(),
                  'zdec @dl @raw', 'base @base']
+        chunk_real = {}
         if small and model_ok:
             lines += ['wfm @base @new %s' % (','.join(ms) or '-'), 'sdiff @base @new %s' % (','.join(ms) or '-'), 'applypatch @base @raw']
+            # the Reader pulled through read() with assorted buffer-size schedules, on the genuine stream and on
+            # a truncated and a corrupted one (error for error)
+            if len(new) <= 40000:
+                r2 = random.Random(len(raw) * 31 + len(new))
+                variants = {'raw': raw, 'rawt': raw[:r2.randrange(8, max(9, len(raw)))]}
+                fl = bytearray(raw)
+                if len(fl) > 9:
+                    fl[r2.randrange(8, len(fl))] ^= 1 << r2.randrange(8)
+                variants['rawf'] = bytes(fl)
+                specs = ['1', '7,3', '4096', '4097,1', '65536', '5000,4095,2', '%d' % r2.randrange(2, 9000)]
+                if len(new) > 6000:
+                    specs = specs[1:]
+                for vn, vb in variants.items():
+                    if vn != 'raw':
+                        lines.insert(0, 'blob %s %s' % (vn, vb.hex()))
+                    open(os.path.join(d, vn), 'wb').write(vb)
+                    rr = subprocess.run([UVH, 'inflatechunks', os.path.join(d, 'b'), os.path.join(d, vn)] + specs, capture_output=True, text=True)
+                    for l in rr.stdout.splitlines():
+                        k, _, v = l.partition('=')
+                        chunk_real[(vn, k)] = v
+                    for sp in specs:
+                        lines.append('chunked %s @base @%s' % (sp, vn))
         lines += ['history ' + name, op_init(), 'op update - %s @dl' % resp(True, (1, h, 'http://dl/1', None), None), 'op nextpath', 'op nextnum']
         f = os.path.join(d, 'x.ops')
         open(f, 'w').write('\n'.join(lines) + '\n')
         mo = subprocess.run(['bash', '-c', 'ulimit -s unlimited; exec "$0" "$1"', DRIVER, f], capture_output=True, text=True) if (small and model_ok) else None
         im = subprocess.run([UVH, 'replay', f, os.path.join(d, 'w')], capture_output=True, text=True)
         shutil.rmtree(d, ignore_errors=True)
-        return name, base, new, raw, ms, mo, im, lines
+        return name, base, new, raw, ms, mo, im, lines, chunk_real
 
     with ThreadPoolExecutor(max_workers=NPROC) as ex:
         results = list(ex.map(one, pairs + big))
-    for name, base, new, raw, ms, mo, im, lines in results:
+    nchunk = 0
+    for name, base, new, raw, ms, mo, im, lines, chunk_real in results:
         evals += 1
         header = [l for l in lines if not l.startswith('op ') and not l.startswith('history ')]
         ops = [l for l in lines if l.startswith('op ')]
@@ -790,12 +832,19 @@ def run_C16(pid, tier, seed, model_ok=True):
                 if a != b:
                     divs.append((name, i, a, b, ops, header))
                     break
+            for (vn, sp), rv in chunk_real.items():
+                nchunk += 1
+                mv = kv.get('chunked:@%s:%s' % (vn, sp))
+                if mv != rv:
+                    divs.append((name, 0, 'model Reader with buffer sizes %s on %s: %s' % (sp, vn, mv), 'real bipatch Reader: %s' % rv, ops, header))
+                if vn == 'raw' and rv != 'ok:%d.%s' % (len(new), hashlib.sha256(new).hexdigest()):
+                    fails.append((name, 0, 'C16: real Reader with buffer sizes %s does not reproduce the new binary: %s' % (sp, rv), ops, header))
         if len(samples) < 5 and name.startswith(('edit', 'rep', 'big')):
             samples.append({'pair': name, 'base_len': len(base), 'new_len': len(new), 'matches': len(ms), 'patch_len': len(raw)})
     shutil.rmtree(work, ignore_errors=True)
     return dict(evaluations=evals, distinct=len(distinct), samples=samples, divergences=divs, monitor_fail=fails,
-                rule='(base,new) pairs: identical / edited / unrelated / empty target / shared prefix or suffix / repeated blocks / grow / shrink at sizes crossing 4096, 8192 (and 65536, MiB in thorough); tool make_patch -> library update installs -> artifact == new; model: wf_matches on real matches, model writer == real bidiff bytes, model reader == new; non-trivial = distinct (|base|,|new|,#matches)',
-                dist={'pairs': evals}, extras=extras, traces=evals)
+                rule='(base,new) pairs: identical / edited / unrelated / empty target / shared prefix or suffix / repeated blocks / grow / shrink at sizes crossing 4096, 8192 (and 65536, MiB in thorough); tool make_patch -> library update installs -> artifact == new; model: wf_matches on real matches, model writer == real bidiff bytes, model reader == new; model Reader state machine == real bipatch Reader under 6-7 buffer-size schedules on the genuine, a truncated and a bit-flipped stream; non-trivial = distinct (|base|,|new|,#matches)',
+                dist={'pairs': evals, 'reader_buffer_schedules': nchunk}, extras=extras, traces=evals)
 
 
 
